@@ -18,6 +18,7 @@ import (
 	"strconv"
 	"strings"
 	"sync"
+	"sync/atomic"
 	"testing"
 	"time"
 
@@ -419,8 +420,88 @@ func runConcurrent(rt *rapid.T, rec *ev.Rec, small bool, src nodeSource) {
 			time.Sleep(time.Millisecond)
 		}
 	}()
+	// race-detector variant: while the senders call SendTo, OTHER peers join and leave both nodes
+	// (AddPeer -> PeerSet.Add, malformed packet -> OnPeerError -> PeerSet.Remove), several times, and
+	// extra goroutines keep calling SendTo for as long as that churn lasts
+	type bgMsg struct {
+		dir   int
+		topic lib.Topic
+		bz    []byte
+	}
+	var churnWG sync.WaitGroup
+	var churnErr error
+	var bgSent [][]bgMsg
+	var bgErr atomic.Value
+	if small {
+		cycles := rapid.IntRange(0, 4).Draw(rt, "churn-cycles")
+		nbg := rapid.IntRange(2, 3).Draw(rt, "churn-senders")
+		if cycles > 0 {
+			c.Desc("churn:%d raw peers join+leave while %d extra goroutines SendTo", cycles, nbg)
+			c.Class("peer-churn-during-sendto")
+			churnDone := make(chan struct{})
+			churnWG.Add(1)
+			go func() {
+				defer churnWG.Done()
+				defer close(churnDone)
+				<-start
+				for k := 0; k < cycles; k++ {
+					node := p.n[k%2]
+					rp, err := p2psim.ConnectRaw(node, p2psim.BLSKey(60+k))
+					if err != nil {
+						churnErr = err
+						return
+					}
+					_ = rp.SendPacket(1000, true, []byte("unknown stream"))
+					if !p2psim.WaitFor(teardownBudget, func() bool { return !node.Has(rp.Pub) && rp.Closed() }) {
+						churnErr = p2psim.ErrTimeout
+					}
+					rp.Close()
+				}
+			}()
+			bgSent = make([][]bgMsg, nbg)
+			for b := 0; b < nbg; b++ {
+				churnWG.Add(1)
+				go func(b int) {
+					defer churnWG.Done()
+					<-start
+					for j := 0; j < 150; j++ {
+						select {
+						case <-churnDone:
+							return
+						default:
+						}
+						d, topic := (b+j)%2, p2psim.AppTopics[(b*7+j)%len(p2psim.AppTopics)]
+						msg, bz := msgOfSize(sc.seed^0xabcdef, uint64(5000+b*1000+j), 8+j%50)
+						if err := p.n[d].SendTo(p.n[1-d].Pub, topic, msg); err != nil {
+							bgErr.Store(fmt.Errorf("SendTo during peer churn: %v", err))
+							return
+						}
+						bgSent[b] = append(bgSent[b], bgMsg{d, topic, bz})
+						time.Sleep(200 * time.Microsecond)
+					}
+				}(b)
+			}
+		}
+	}
 	close(start)
 	wg.Wait()
+	churnWG.Wait()
+	for _, l := range bgSent {
+		for _, x := range l {
+			m.add(x.dir, x.topic, x.bz)
+		}
+	}
+	if churnErr != nil {
+		if errors.Is(churnErr, p2psim.ErrTimeout) || p2psim.IsTimeoutErr(churnErr) {
+			inconclusive(rt, rec, "peer churn: "+churnErr.Error())
+		}
+		rt.Fatalf("a raw peer could not join during the concurrent sends: %v", churnErr)
+	}
+	if e, _ := bgErr.Load().(error); e != nil {
+		wallClock(rt, rec, p.n[0])
+		wallClock(rt, rec, p.n[1])
+		rt.Fatalf("%v", e)
+	}
 	if sc.flood {
 		time.Sleep(300 * time.Millisecond) // the per-message goroutines of PeerSet.send are still queueing
 	}
